@@ -137,6 +137,7 @@ type FuncVerifier struct {
 	curPos    token.Pos
 	abstracted map[string]bool
 	nEntry int
+	aliases map[types.Object]ast.Expr // locals bound once to &root.path: treated as names for that location
 	regionStart token.Pos
 	regionInit map[types.Object]string
 	siteOcc map[string]int
